@@ -50,7 +50,7 @@ def _case(draw, unit):
             'size': [draw(st.integers(2, 14)), draw(st.integers(2, 14))],
             'o_dim': o, 'ri_dim': ri, 'mode': draw(st.sampled_from(['symmetric', 'symmetric', 'zero'])),
             'reused': draw(st.integers(0, 2)) == 0,
-            'rx': draw(core.recipe_strategy()), 'rg': draw(core.recipe_strategy()),
+            'rx': draw(core.recipe_strategy()), 'rg': draw(core.recipe_strategy(kinds=core.RECIPE_KINDS + ['contrast'])),
             'k': draw(st.integers(0, 10**6))}
     if direction == 'forward':
         case['skip'] = mask()
